@@ -395,6 +395,10 @@ def gen_bundle(rng, flags=None, crc_types=None, admin=None, n_ext=None, eid_kind
         data = gen_data(rng, payload_sizes)
     spec['blocks'].append(dict(type=BLOCK_PAYLOAD, num=1, flags=rng.choice([0, 0, 0, 1, 4]), crc_type=crc_for(1 + n_ext),
                                data=data.hex(), crc=None, view=view))
+    if not admin and len(data) > 2000:
+        seed = rng.randrange(2 ** 31)
+        spec['blocks'][-1]['mk'] = [seed, len(data)]
+        spec['blocks'][-1]['data'] = mkdata(seed, len(data)).hex()
     return fill_crc(spec)
 
 
@@ -725,9 +729,43 @@ def coq_primary(spec):
         coq_eid(spec['report_to']), spec['time'], spec['seq'], spec['lifetime'], frag, _coq_opt_bytes(spec['crc']))
 
 
+def mkdata(seed, length):
+    ''' Same LCG as Lib/Bytes.mkdata / common.mkdata (big payloads are never written as literals). '''
+    out = bytearray()
+    state = seed
+    for _ in range(length):
+        state = (state * 1103515245 + 12345) % 4294967296
+        out.append((state >> 16) & 0xFF)
+    return bytes(out)
+
+
+def _coq_mk(blk):
+    (seed, length) = blk['mk']
+    return '(mkdata %d%%N (N.to_nat %d%%N))' % (seed, length)
+
+
 def coq_block(blk):
-    return '(mkCBlock %d %d %d %d %s %s)' % (blk['type'], blk['num'], blk['flags'], blk['crc_type'],
-                                             _coq_bytes(bytes.fromhex(blk['data'])), _coq_opt_bytes(blk['crc']))
+    ''' A block whose BTSD was produced by ``mkdata(seed, len)`` carries ``'mk': [seed, len]`` and is rendered
+    through Lib.Bytes.mkdata instead of a literal. '''
+    data = _coq_mk(blk) if blk.get('mk') else _coq_bytes(bytes.fromhex(blk['data']))
+    return '(mkCBlock %d %d %d %d %s %s)' % (blk['type'], blk['num'], blk['flags'], blk['crc_type'], data, _coq_opt_bytes(blk['crc']))
+
+
+def coq_encoded(spec):
+    ''' Coq term (bytes) of ``encode(spec)``; BTSD given by ``mk`` is spliced in through mkdata. '''
+    raw = encode(spec)
+    parts = []
+    pos = 0
+    for blk in spec['blocks']:
+        if not blk.get('mk'):
+            continue
+        data = bytes.fromhex(blk['data'])
+        idx = raw.index(data, pos)
+        parts.append(_coq_bytes(raw[pos:idx]))
+        parts.append(_coq_mk(blk))
+        pos = idx + len(data)
+    parts.append(_coq_bytes(raw[pos:]))
+    return '(' + ' ++ '.join(parts) + ')'
 
 
 def coq_bundle(spec):
@@ -792,5 +830,5 @@ def rec_of_model(val):
 
 def strip_views(spec):
     out = dict(spec)
-    out['blocks'] = [dict((key, val) for (key, val) in blk.items() if key != 'view') for blk in spec['blocks']]
+    out['blocks'] = [dict((key, val) for (key, val) in blk.items() if key not in ('view', 'mk')) for blk in spec['blocks']]
     return out
